@@ -39,7 +39,7 @@ RULE = ("seeded random cases: operator (take_with_time, skip_with_time, take_unt
 ASSUMPTIONS = ["TestScheduler / HistoricalScheduler are the clock (their ordering is checked independently by C28)",
                "probe sources and probe observers are harness code (conforming here)",
                "an absolute datetime given to timeout() is the deadline itself (only deadlines >= subscription time are generated)"]
-CASES = {"quick": 5400, "thorough": 216000}
+CASES = {"quick": 21600, "thorough": 612000}
 OPS = ["take_with_time", "skip_with_time", "take_until_with_time", "take_until_with_time", "skip_until_with_time",
        "skip_until_with_time", "take_last_with_time", "take_last_with_time", "take_last_with_time",
        "skip_last_with_time", "skip_last_with_time", "skip_last_with_time", "timeout", "timeout", "timeout", "timeout",
